@@ -191,7 +191,9 @@ def judge(case, obs):
     # the EUT gives up AT the first inadmissible message: once it has received the record that carries it, it
     # sends nothing but alerts (no further handshake flight, ChangeCipherSpec or data)
     at = case.get("at", 0)
-    if not spec_open and 0 < at <= len(obs.get("pup_sent_rec", [])):
+    sr = obs.get("pup_sent_rec", [])
+    # (not judged when an earlier, admissible message travels in the same record: the EUT may answer that one first)
+    if not spec_open and 0 < at <= len(sr) and not (at >= 2 and sr[at - 2] == sr[at - 1]):
         first_rec = obs["pup_sent_rec"][at - 1] + 1
         seen = False
         for kind, v in obs.get("eut_io", []):
